@@ -13,19 +13,24 @@ LEVEL_TEXT = ("Coq theorems in the abstract ordered *-field (every length, order
               "specification ((S,Vh) spec for FB(x) => (|c| S, Vh) spec for FB(c x); decisions unchanged; MUSIC unchanged, EV times |c|) are "
               "homogeneous; class level: for every pipeline table stored(k*S) = k*stored(S), and over the table GENERATED from the snapshot on this "
               "run every class is routed to a proved-homogeneous estimator and every AR/MA/ARMA class hands the estimated variance to arma2psd "
-              "(linear in rho).  Models are tied to the code by exact in-Coq correspondence at scaled inputs (here: CORRELATION, LEVINSON, arburg, "
-              "aryule, arcovar, modcovar, speriodogram; the other models by the correspondence runs of C01 C14 C16 C17 C19); every estimator "
+              "(linear in rho).  arma.ma, arma.arma_estimate and the parma / pma objects (the model of C15): same AR / MA coefficients, |c|^2 rho, "
+              "same exception, stored PSD times |c|^2, for any covariance-method oracles that agree on the two systems they are handed (proved for "
+              "the executable solver of Model/Ls.v; for C15's elimination oracle when no pivot vanishes); guard: residual not identically zero.  "
+              "Models are tied to the code by exact in-Coq correspondence at scaled inputs (here: CORRELATION, LEVINSON, arburg, "
+              "aryule, arcovar, modcovar, speriodogram, arma_estimate; the other models by the correspondence runs of C01 C14 C15 C16 C17 C19); every estimator "
               "(function and class form) is also covered by a property-directed search comparing estimate(c*x) with |c|^p * estimate(x).")
 TRUSTED = ["Coq 8.16.1 kernel + vm_compute",
-           "hand-written models coq/Model/{Corr,Levinson,Burg,Periodogram,Yule,Ls,Minvar,Mtm,Eigen,Arma2psd}.v (tie = correspondence runs, here at "
-           "scaled inputs for Corr/Levinson/Burg/Yule/Ls/Periodogram, in C16/C17/C19 for Minvar/Eigen/Mtm)",
+           "hand-written models coq/Model/{Corr,Levinson,Burg,Periodogram,Yule,Ls,Minvar,Mtm,Eigen,Arma2psd,ArmaEst,ArmaCall}.v (tie = correspondence runs, here at "
+           "scaled inputs for Corr/Levinson/Burg/Yule/Ls/Periodogram/ArmaEst, in C15 for ArmaEst and its class pipeline, in C16/C17/C19 for Minvar/Eigen/Mtm)",
+           "arcovar_marple / scipy lstsq inside arma_estimate are oracles of the model: the arma_estimate / parma theorems assume they return the same "
+           "coefficients for a system and its |c|^2 multiple (true of any solver of the normal equations of a full-rank system)",
            "fail-closed AST translator tools/props/_pipelines.py and the interpreter coq/Model/PipelineLib.v (validated against real objects by C08)",
            "numpy.linalg.svd / scipy.linalg.lstsq / numpy.fft / dpss enter as specifications (Section variables with hypotheses), argmin of "
            "aic_eigen / mdl_eigen as an oracle argument",
            "log_criteria_homogeneous is stated over the standard-library reals (axioms: sig_forall_dec, sig_not_dec, "
            "functional_extensionality_dep, classic); all other theorems are axiom-free",
            "Python harness"]
-UNPROVED = ["arma_estimate / ma (no merged model), DaniellPeriodogram, arcovar_marple / modcovar_marple: search only",
+UNPROVED = ["DaniellPeriodogram, arcovar_marple / modcovar_marple as stand-alone recursions: search only (inside arma_estimate arcovar_marple is the oracle lsm)",
             "invariance of the argmin of aic_eigen / mdl_eigen (logarithms; an oracle argument of the Eigen model): search only",
             "that numpy's svd / lstsq return related factorisations for x and c*x (theorems are over their specifications); binary64 rounding"]
 ASSUMPTIONS = ["exact arithmetic in the theorems",
